@@ -4,7 +4,8 @@ import re
 from ..fn import World
 from ..index import AnalysisError, dotted
 from ..astutil import text, short, endswith, calls_in, walk_no_nested
-from ._h_E import Flow, arg, argn, return_nodes, return_cases, same_module_callees, is_const
+from ._h_E import Flow, arg, argn, return_nodes, return_cases, same_module_callees, is_const, \
+    args_by_params
 
 EXPLANATION = (
   "Decides that a formula text cannot take down the shared usercode module: every parser or "
@@ -101,8 +102,12 @@ def _parse_sites(w, fn):
           if fi.module is fn.fi.module and fi.qualname != fn.qualname:
             for b in fi.node.body:
               kinds |= _direct_parse_kinds(b)
-        if kinds:
+        if len(kinds) == 1:
           out.append((d or "helper", n, "astroid.parse" in kinds))
+        else:
+          # one obligation per parser reached through the helper
+          for k in sorted(kinds):
+            out.append(("%s via %s" % (k, d or "helper"), n, k == "astroid.parse"))
   return out
 
 
@@ -322,30 +327,58 @@ def r3_translation(run, w):
     src = flow.loop_source(e, nid)
     return src is not None and _walks_tree(flow, src[0], src[1])
 
-  def is_name_node(e, nid):
-    return _is_call_of(e, "isinstance") and len(e.args) == 2 and text(e.args[1]) == "ast.Name" \
-        and walk_var(e.args[0], nid)
-
-  def is_dollar_id(e, nid):
-    return isinstance(e, ast.Call) and isinstance(e.func, ast.Attribute) and \
-        e.func.attr == "startswith" and len(e.args) == 1 and is_const(e.args[0], "DOLLAR") and \
-        isinstance(e.func.value, ast.Attribute) and e.func.value.attr == "id" and \
-        walk_var(e.func.value.value, nid)
-
-  def is_dollar_match(e, nid):
-    return flow.denotes(e, nid, lambda x, n: isinstance(x, ast.Call) and
+  def atoms(fl, is_walk_var):
+    def is_name_node(e, nid):
+      return _is_call_of(e, "isinstance") and len(e.args) == 2 and \
+          text(e.args[1]) == "ast.Name" and is_walk_var(e.args[0], nid)
+    def is_dollar_id(e, nid):
+      return isinstance(e, ast.Call) and isinstance(e.func, ast.Attribute) and \
+          e.func.attr == "startswith" and len(e.args) == 1 and is_const(e.args[0], "DOLLAR") and \
+          isinstance(e.func.value, ast.Attribute) and e.func.value.attr == "id" and \
+          is_walk_var(e.func.value.value, nid)
+    def is_dollar_match(e, nid):
+      return fl.denotes(e, nid, lambda x, n: isinstance(x, ast.Call) and
                         isinstance(x.func, ast.Attribute) and x.func.attr == "match")
+    return is_name_node, is_dollar_id, is_dollar_match
+
+  is_name_node, is_dollar_id, is_dollar_match = atoms(flow, walk_var)
 
   # (a) the 'rec.' patch
   recs = _patches_inserting(w, fn, flow, "rec.")
-  if not recs:
-    raise AnalysisError("_do_make_formula_body: the make_patch(..., 'rec.') call was not found "
-                        "(translation moved?)")
   ok = len(recs) == 1
   for c in recs:
     for nid in flow.where(c):
       ok = ok and flow.guarded(nid, is_name_node, True) and flow.guarded(nid, is_dollar_id, True) \
           and flow.guarded(nid, is_dollar_match, True)
+  if not recs:
+    # the construction of the patch may have been extracted into a helper taking the node
+    found = 0
+    for (n, c, nm) in fn.calls():
+      for hfi in same_module_callees(w, fn, c, depth=1):
+        if hfi.module is not fn.fi.module or hfi.qualname == fn.qualname:
+          continue
+        hfn = w.fn_of(hfi)
+        hflow = Flow(hfn)
+        hrecs = _patches_inserting(w, hfn, hflow, "rec.")
+        if not hrecs:
+          continue
+        found += len(hrecs)
+        hps = hfi.params()
+        bound = args_by_params(c, hps)
+        def param_walk_var(e, k):
+          return isinstance(e, ast.Name) and e.id in hps and not hflow.du.defs.get(e.id) and \
+              bound is not None and e.id in bound and walk_var(bound[e.id], n.id)
+        h_name, h_dollar, h_match = atoms(hflow, param_walk_var)
+        ok = found == 1
+        for hc in hrecs:
+          for hk in hflow.where(hc):
+            ok = ok and (flow.guarded(n.id, is_name_node, True) or
+                         hflow.guarded(hk, h_name, True)) and \
+                (flow.guarded(n.id, is_dollar_id, True) or hflow.guarded(hk, h_dollar, True)) and \
+                hflow.guarded(hk, h_match, True)
+    if not found:
+      raise AnalysisError("_do_make_formula_body: the make_patch(..., 'rec.') call was not found "
+                          "(translation moved?)")
   run.ob(R3, fn.qualname, "patch '$' -> 'rec.' under isinstance(node, ast.Name) for node in "
          "ast.walk(tree)", "dollar signs inside strings and comments are never rewritten (they "
          "are not Name nodes of the parsed tree)", ok, fi=fn.fi)
@@ -355,9 +388,11 @@ def r3_translation(run, w):
     """tree.body[-1] (or the None standing for an empty body)."""
     if is_const(x, None):
       return True
-    return isinstance(x, ast.Subscript) and text(x.slice) == "-1" and \
-        isinstance(x.value, ast.Attribute) and x.value.attr == "body" and \
-        flow.denotes(x.value.value, n, _tree_pred)
+    if not (isinstance(x, ast.Subscript) and text(x.slice) == "-1"):
+      return False
+    body, bn = flow.resolve(x.value, n)
+    return isinstance(body, ast.Attribute) and body.attr == "body" and \
+        flow.denotes(body.value, bn, _tree_pred)
 
   def is_last(e, nid):
     ls = flow.leaves(e, nid)
@@ -462,6 +497,20 @@ def r4_compile_acceptor(run, w):
   if not acceptors:
     return
   names = {a.name for a in acceptors}
+  # helpers that hand their own argument to an acceptor on every path accept it too
+  changed = True
+  while changed:
+    changed = False
+    for fi in mod.functions.values():
+      if fi.name in names or fi.qualname == fn.qualname or not fi.params():
+        continue
+      hfn = w.fn_of(fi)
+      hflow = Flow(hfn)
+      hits = {n.id for (n, c, nm) in hfn.calls() if nm in names and argn(w, hfn, c, 0) is not None
+              and hflow.itext(argn(w, hfn, c, 0), n.id, stop=fi.params()) == fi.params()[0]}
+      if hits and hfn.cfg.dominated_by(hfn.cfg.exit.id, hits):
+        names.add(fi.name)
+        changed = True
   acc_nodes = fn.nodes_calling(lambda c, nm, f: nm in names)
   # the return of the translated body
   def is_replacer(x, n):
